@@ -215,6 +215,11 @@ class SEval:
                 out.append(self.ev(n.elt))
             return out
         if isinstance(n, ast.Subscript):
+            if self.leaf is not None and not (isinstance(n.value, ast.Name) and n.value.id in self.env):
+                try:
+                    return self.leaf(n)
+                except Unknown:
+                    pass
             v = self.ev(n.value)
             if isinstance(v, SVec):
                 v = v.items
